@@ -115,7 +115,7 @@ CHECKS.update({
  'C13': dict(
    technique='harness-enforced contracts (CBMC): inductive invariant over the operations storeLastData / isTrue with a monotone non-strict clock; loop-complete checks of hasField / checkValue / combined conditions against existential specifications',
    level='proof',
-   text='For any history of updates (Message::storeLastData with arbitrary data, several updates may share a second) and queries, SimpleCondition::isTrue is proved to return exactly "the most recently stored data satisfies the condition" (or "seen" for a condition without values) by an invariant preserved by both operations; SimpleNumericCondition::checkValue is true iff the decoded value lies in one of the ranges; a combined condition is true iff all parts are; DataFieldSet::hasField(name, kind) iff a field of that kind (named so, or any) exists, for every field count up to MAX_POS=24 and every mix of kinds.',
+   text='For any history of updates (Message::storeLastData with arbitrary data, several updates may share a second) and queries, SimpleCondition::isTrue is proved to return exactly "the most recently stored data satisfies the condition" (or "seen" for a condition without values) by an invariant preserved by both operations; SimpleNumericCondition::checkValue is true iff the decoded value lies in one of the ranges; a combined condition is true iff all parts are; DataFieldSet::hasField(name, kind) iff a field of that kind (named so, or any) exists, for every field count up to MAX_POS=24 and every mix of kinds. Message::isAvailable is proved to be "no condition, or the condition (simple or combined) is true" independent of the check time a condition records, and Message::getAvailableSinceTime to be the creation time without condition and 0 for a false condition.',
    note=TB + 'The value of the stored data (decodeLastData*) is an environment stub (ghost truth value that changes only when the stored data changes); vector capacities 24 fields / 8 ranges / 8 parts are model bounds with unwinding assertions; Condition::create / resolve / derive string handling and MessageMap::resolveConditions are not under contract.',
    ref='DESIGN.md 5 (C13)'),
 })
